@@ -37,12 +37,12 @@ def prepare(tier, seed):
 
 
 def lats(tier, seed):
-    return uniq([-90.0, -45.0, 0.0, 45.0, 90.0, -89.999999, 1e-9, -33.5] + fill(-80.0, 80.0, 20.0 if tier == 'quick' else 5.0, seed, 51))
+    return uniq([-90.0, -45.0, 0.0, 45.0, 90.0, -89.999999, 1e-9, -33.5] + fill(-80.0, 80.0, 10.0 if tier == 'quick' else 2.5, seed, 51))
 
 
 def lons(tier, seed):
     return uniq([-360.0, -270.0, -180.0, -90.0, 0.0, 90.0, 180.0, 270.0, 360.0, 133.88, -1e-9] +
-                fill(-350.0, 350.0, 70.0 if tier == 'quick' else 17.5, seed, 52))
+                fill(-350.0, 350.0, 35.0 if tier == 'quick' else 7.0, seed, 52))
 
 
 VECS = [[1.0, 0.0, 0.0], [0.0, 1.0, 0.0], [0.0, 0.0, 1.0], [1.0, 1.0, 1.0], [-3.0, 4.0, 12.0], [1e7, -1e7, 1e7], [1e-3, 0.0, -1e7],
@@ -129,7 +129,7 @@ POS = [(-90.0, 0.0), (90.0, 123.0), (0.0, 0.0), (0.0, 180.0), (-23.67, 133.88), 
 
 
 def gen_vcv(tier, seed):
-    mats = psd_lattice('thorough' if tier == 'thorough' else 'quick')
+    mats = psd_lattice('thorough')
     cols = [[[1e-4], [2e-4], [3e-4]], [[0.0], [0.0], [0.0]], [[1.0], [1e-8], [1e-4]], [[5.0], [5.0], [5.0]]]
     for p in POS:
         yield {'pos': list(p), 'mats': mats, 'cols': cols}
@@ -190,7 +190,7 @@ def ev_vcv(case, rec):
 
 # --------------------------------------------------------------------------------------------
 def gen_ell(tier, seed):
-    mats = psd_lattice('thorough' if tier == 'thorough' else 'quick')
+    mats = psd_lattice('thorough')
     extra = [[[4.0, 0.0, 0.0], [0.0, 1.0, 0.0], [0.0, 0.0, 9.0]], [[1.0, 0.0, 0.0], [0.0, 4.0, 0.0], [0.0, 0.0, 0.0]],
              [[2.0, 1.0, 0.0], [1.0, 2.0, 0.0], [0.0, 0.0, 1.0]], [[2.0, -1.0, 0.0], [-1.0, 2.0, 0.0], [0.0, 0.0, 1.0]],
              [[1.0, 1.0, 0.0], [1.0, 1.0, 0.0], [0.0, 0.0, 0.0]], [[3.0, 0.0, 0.0], [0.0, 3.0, 0.0], [0.0, 0.0, 3.0]]]
